@@ -56,7 +56,8 @@ def rand_meta(rng, depth):
                             "output_type", "weight", "shape", "nodes", "edges"])
             r = rng.random()
             if r < 0.2:
-                out[k] = rng.choice(["", "text", "日本語", "a\nb", "same"])
+                out[k] = rng.choice(["", "text", "日本語", "a\nb", "same", "hidden layer ", " ", "    ", " lead", "tab\t", "trail \n",
+                                     "nbsp\u00a0", "caf\u0065\u0301", "\u2126 ohm"])
             elif r < 0.35:
                 out[k] = rng.choice([0, 1, -7, 2 ** 40, 2 ** 63 - 1])
             elif r < 0.5:
@@ -135,8 +136,10 @@ def rand_leaf(rng):
             sh = [rng.choice([8, 16, 12, 4, 32]) for _ in range(rng.randint(2, 3))]
         a = rng.randrange(len(sh)); b = rng.randrange(a, len(sh))
         form = rng.choice(["dict", "nd", "list", "tuple"])
-        it = {"dict": {"input": np.array(sh)}, "nd": np.array(sh), "list": list(sh), "tuple": tuple(sh)}[form]
-        args = {"input_type": it, "start_dim": rng.choice([a, a - len(sh)]), "end_dim": rng.choice([b, b - len(sh)])}
+        if rng.random() < 0.06:      # the DEFINED empty shape (a rank-0 signal)
+            sh, a, b, form = [], 0, -1, rng.choice(["nd", "dict"])
+        it = {"dict": {"input": np.array(sh, dtype=np.int64)}, "nd": np.array(sh, dtype=np.int64), "list": list(sh), "tuple": tuple(sh)}[form]
+        args = {"input_type": it, "start_dim": rng.choice([a, a - len(sh)]) if sh else 0, "end_dim": rng.choice([b, b - len(sh)]) if sh else -1}
         if rng.random() < 0.3:
             args.pop("start_dim")
     if md is not None:
@@ -182,6 +185,8 @@ def serial_graph(rng, depth=2, max_nodes=7, bad_names=False, shared=False):
             edges.append((k, rng.choice(keys)))
             edges.append((rng.choice(keys), k))
     g = {"k": "NIRGraph", "nodes": nodes, "edges": edges}
+    if edges and rng.random() < 0.15:
+        g["edge_lists"] = True          # edges given as 2-element LISTS (e.g. loaded from JSON): mutable pairs
     md = rand_meta(rng, 2)
     if md is not None:
         g["metadata"] = md
